@@ -66,6 +66,8 @@ type node struct {
 	bcache *network.BlockCache
 	ccache *network.ConfirmCache
 	seq    *seqState // sequence layer: the blocks of the universe built so far
+	by     *conn     // receive-side layer: the bystander's connection
+	byTxs  int       // TxsMsg frames the bystander has received
 }
 
 func newNode(dir string) (*node, error) {
@@ -122,6 +124,7 @@ type recConn struct {
 	closedCh chan struct{}
 	once     sync.Once
 	nread    int64
+	rxState  // receive-side layer: what the remote does with the node's writes (rx.go)
 }
 
 func (c *recConn) Read(b []byte) (int, error) {
@@ -153,6 +156,8 @@ type conn struct {
 	inbox  [][]byte // bodies of the frames the node sent us
 	rdDone chan struct{}
 	notify chan struct{}
+	paused int32         // receive-side layer: 1 = the remote does not read
+	resume chan struct{} // closed by Resume
 }
 
 // accept mirrors p2p.Server.listenLoop -> HandleConn(fd, nil) -> run(addPeerCh) for one inbound connection.
@@ -226,6 +231,7 @@ func (c *conn) startReader() {
 	go func() {
 		defer close(c.rdDone)
 		hdr := make([]byte, 6)
+		readFull := c.readFullPausable // a remote that stops reading (receive-side layer) parks here, also in the middle of a frame
 		for {
 			if _, err := readFull(c.cli, hdr); err != nil {
 				return
